@@ -7,7 +7,12 @@ asyncio code is atomic between awaits, so one model step is one atomic block of 
                     or returns at once;
 * `release i`    — task `i` leaves the `async with` body: `__aexit__` → `release(w)` including the whole
                     `while self.queue:` loop.  A waiter whose event is set by that loop is *granted*: its weight
-                    has been subtracted from `value`, and when it is resumed it only returns from `acquire`.
+                    has ALREADY been subtracted from `value` by the loop (`self.value -= head_weight`), i.e. a woken
+                    waiter owns its weight from the moment it is woken, not from the moment it runs again;
+* `resume i`     — a granted task is scheduled again: `event.wait()` and `acquire` return, the body starts.
+                    Nothing of the semaphore changes.
+Any number of `acquire`/`release` blocks of other tasks may run between the wake-up of a waiter and its `resume`
+(several releases, or a release and a new acquire, inside one event-loop iteration): op lists contain them all.
 Task ids stand for the `asyncio.Event` objects of the queue entries (one per waiting task).
 Cancellation of waiters is not modelled (outside C16).
 -/
@@ -18,13 +23,16 @@ structure State where
   value : Int
   /-- `self.queue`, head = oldest waiter; entries `(task, weight)` -/
   queue : List (Nat × Nat)
-  /-- tasks that have been granted their weight and have not released it yet -/
+  /-- waiters whose event has been set by `release` and that have not run since; their weight is already subtracted -/
+  granted : List (Nat × Nat)
+  /-- tasks inside the `async with` body -/
   holders : List (Nat × Nat)
   deriving DecidableEq, Repr
 
 inductive Op where
   | acquire (i w : Nat)
   | release (i : Nat)
+  | resume (i : Nat)
   deriving DecidableEq, Repr
 
 /-- what a step does to tasks (the observable trace) -/
@@ -35,15 +43,21 @@ inductive Ev where
   | enqueue (i : Nat)
   /-- the `release` loop set the event of queued task `i` (`n_notified += 1`) -/
   | grantQueued (i : Nat)
+  /-- a granted task ran again and entered the body -/
+  | resumed (i : Nat)
   deriving DecidableEq, Repr
 
 /-- `FIFOWeightedSemaphore(value=cap)` -/
-def init (cap : Nat) : State := ⟨cap, [], []⟩
+def init (cap : Nat) : State := ⟨cap, [], [], []⟩
 
 def ids (l : List (Nat × Nat)) : List Nat := l.map (·.1)
 def weights (l : List (Nat × Nat)) : Int := (l.map fun p => (p.2 : Int)).sum
 
-def active (s : State) (i : Nat) : Bool := (ids s.queue).contains i || (ids s.holders).contains i
+def active (s : State) (i : Nat) : Bool :=
+  (ids s.queue).contains i || (ids s.granted).contains i || (ids s.holders).contains i
+
+/-- weight that is handed out: tasks in the body and woken tasks that have not run yet -/
+def held (s : State) : Int := weights s.holders + weights s.granted
 
 /-- remove task `i` from a holder list, returning its weight -/
 def take (i : Nat) : List (Nat × Nat) → Option (Nat × List (Nat × Nat))
@@ -62,27 +76,31 @@ while self.queue:
     else: break
 ```
 -/
-def drain (value : Int) (holders : List (Nat × Nat)) : List (Nat × Nat) → State × List Ev
-  | [] => (⟨value, [], holders⟩, [])
+def drain (value : Int) (granted holders : List (Nat × Nat)) : List (Nat × Nat) → State × List Ev
+  | [] => (⟨value, [], granted, holders⟩, [])
   | (i, w) :: q =>
     if value ≥ (w : Int) then
-      let r := drain (value - w) (holders ++ [(i, w)]) q
+      let r := drain (value - w) (granted ++ [(i, w)]) holders q
       (r.1, Ev.grantQueued i :: r.2)
-    else (⟨value, (i, w) :: q, holders⟩, [])
+    else (⟨value, (i, w) :: q, granted, holders⟩, [])
 
 /-- one atomic block.  `none` = not a behaviour of the protocol (a task id used twice at the same time, or a
-release by a task that does not hold: the context manager makes both impossible). -/
+release by a task that is not in the body, a resume of a task that was not woken: impossible for `async with`). -/
 def step (s : State) : Op → Option (State × List Ev)
   | .acquire i w =>
     if active s i then none
     else if s.queue.isEmpty ∧ s.value ≥ (w : Int) then     -- `if not self.queue and self.value >= weight`
-      some (⟨s.value - w, s.queue, s.holders ++ [(i, w)]⟩, [Ev.grantNow i])
+      some (⟨s.value - w, s.queue, s.granted, s.holders ++ [(i, w)]⟩, [Ev.grantNow i])
     else                                                    -- `self.queue.append((event, weight)); await event.wait()`
-      some (⟨s.value, s.queue ++ [(i, w)], s.holders⟩, [Ev.enqueue i])
+      some (⟨s.value, s.queue ++ [(i, w)], s.granted, s.holders⟩, [Ev.enqueue i])
   | .release i =>
     match take i s.holders with
     | none => none
-    | some (w, rest) => some (drain (s.value + w) rest s.queue)   -- `self.value += weight` then the loop
+    | some (w, rest) => some (drain (s.value + w) s.granted rest s.queue)   -- `self.value += weight` then the loop
+  | .resume i =>
+    match take i s.granted with
+    | none => none
+    | some (w, rest) => some (⟨s.value, s.queue, rest, s.holders ++ [(i, w)]⟩, [Ev.resumed i])
 
 /-- run a list of atomic blocks, collecting the trace -/
 def run : State → List Op → Option (State × List Ev)
@@ -104,6 +122,9 @@ def grantedFromQueue : List Ev → List Nat
   | [] => []
   | Ev.grantQueued i :: es => i :: grantedFromQueue es
   | _ :: es => grantedFromQueue es
+
+/-- the blocks that run when the event loop runs to quiescence: every granted task resumes, in grant order -/
+def settleOps (s : State) : List Op := s.granted.map fun p => Op.resume p.1
 
 /-- every acquire of the op list asks for at most `cap` -/
 def WeightsLe (cap : Nat) (ops : List Op) : Prop := ∀ i w, Op.acquire i w ∈ ops → w ≤ cap
